@@ -15,6 +15,13 @@ Name lookup:  a second family (lib_c06lookup.py) declares one type name at every
               scope, as return type, parameter, method, data member and typedef; g++ decides
               which declaration wins (cases it finds ambiguous are filtered and counted).
 
+Template members: a third family (lib_c06tmpl.py) puts one member (data member, parameter,
+              return type, typedef; element T or fixed; plain, pointer, reference, arrays bounded
+              by N, pointer/reference to array, function pointers) into its own class template
+              over {class T; class T,int N; int N; defaults; template-of-template arguments},
+              instantiates it through a global typedef and checks everything printed for the
+              INSTANTIATED member, plus the template as re-printed by parse_file.
+
 Acceptance:   parse_file exits 0 and reports no error on every generated translation unit
               (errors are attributed to single declarations and confirmed in isolation), and
               on every file of parser-inc/ that g++ accepts stand-alone.
@@ -38,6 +45,7 @@ import shutil
 from vf import build, tools
 from vf import lib_c06 as L
 from vf import lib_c06lookup as K
+from vf import lib_c06tmpl as T
 from vf.core import Check, HarnessError, pmap, run_main
 
 PID = "C06"
@@ -439,7 +447,9 @@ def run_checker(d, probes, prelude=None):
             c = p.case
             exp = p.expected or c.entity_type()
             alts = []
-            if p.chan != "W":
+            if hasattr(c, "alts"):
+                alts = list(c.alts(p.chan))
+            elif p.chan != "W":
                 allowed = {"volatile-dropped", "member-pointer-as-pointer",
                            "array-suffix-unparenthesised"}
                 if L.base_of(c.term) not in BUILTIN and paren_declarator(c):
@@ -1025,6 +1035,293 @@ def lookups(ck, b):
                           "failing": failing}
 
 
+# ------------------------------------------------------------------------- template members
+TM_PER_TU = 300
+
+
+def tmember_tu(b, d, cases):
+    """One TU of template-member cases.  Returns (cases, probes, filtered{case: reason})."""
+    os.makedirs(d, exist_ok=True)
+    for i, c in enumerate(cases):
+        c.i = i
+        c.reject = None
+
+    def header(active):
+        lines = T.PRELUDE.rstrip("\n").split("\n")
+        where = {}
+        for c in active:
+            for l in c.render():
+                lines.append(l)
+                where[len(lines)] = c
+        return "\n".join(lines) + "\n", where
+
+    filtered = {}
+    active = list(cases)
+    for _ in range(8):
+        txt, where = header(active)
+        _w(os.path.join(d, "h.h"), txt)
+        g = tools.run(GXX + ["-fsyntax-only", "-x", "c++", "h.h"], cwd=d, timeout=300)
+        if g.rc == 0:
+            break
+        bad = {}
+        for m in re.finditer(r"^h\.h:(\d+):\d+: error: (.*)$", g.err, re.M):
+            c = where.get(int(m.group(1)))
+            if c is not None:
+                bad.setdefault(c, m.group(2))
+        if not bad:
+            raise HarnessError("g++ fails on the template header and nothing can be blamed: " + g.err[-1500:])
+        filtered.update(bad)
+        active = [c for c in active if c not in bad]
+    else:
+        raise HarnessError("template header still rejected by g++")
+    out = ""
+    for _ in range(len(active) + 2):
+        if not active:
+            break
+        txt, where = header(active)
+        _w(os.path.join(d, "h.h"), txt)
+        r = tools.parse_file(b, ["h.h"], cwd=d, timeout=300)
+        errs = [(int(m.group(1)), m.group(2)) for m in ERR_RE.finditer(r.err)]
+        if r.rc == 0 and not errs and not r.timeout:
+            out = r.out
+            break
+        blamed = [where[ln] for ln, _ in errs if ln in where][:1]
+        if not blamed:
+            raise HarnessError("parse_file fails on the template header, nothing to blame: " + r.err[-800:])
+        blamed[0].reject = [msg for ln, msg in errs if where.get(ln) is blamed[0]][0]
+        active = [c for c in active if c.reject is None]
+    probes = []
+    if not active:
+        return cases, probes, filtered
+    for f in ("o.in", "o.cxx"):
+        if os.path.exists(os.path.join(d, f)):
+            os.unlink(os.path.join(d, f))
+    r = tools.interrogate(b, ["-promiscuous", "-c", "-nodb", "-od", "o.in", "-oc", "o.cxx",
+                              "-module", "m", "-library", "l", "h.h"], cwd=d, timeout=600)
+    if r.rc != 0 or r.timeout or not os.path.exists(os.path.join(d, "o.in")):
+        if len(active) == 1:
+            active[0].reject = "interrogate: rc=%s %s" % (r.rc, r.err.strip()[-160:])
+            return cases, probes, filtered
+        mid = len(active) // 2
+        a = tmember_tu(b, d + "a", active[:mid])
+        bb = tmember_tu(b, d + "b", active[mid:])
+        return cases, a[1] + bb[1], filtered
+    dump = tools.idb_dump(b, [os.path.join(d, "o.in")], cwd=d)
+    funcs, elems, tdefs, wrappers = {}, {}, {}, {}
+    for k, f in dump["functions"].items():
+        funcs.setdefault(f["scoped_name"].rsplit("::", 1)[-1], []).append((k, f))
+    for k, e in dump["elements"].items():
+        elems[e["scoped_name"].rsplit("::", 1)[-1]] = e
+    for k, t in dump["types"].items():
+        if t["flags"] & 0x200000:
+            tdefs.setdefault(t["scoped_name"].rsplit("::", 1)[-1], t)
+    for k, w in dump["wrappers"].items():
+        wrappers.setdefault(str(w["function"]), []).append(w)
+    # the template definitions as re-printed by parse_file
+    olines = out.splitlines()
+    blocks = {}
+    for n, line in enumerate(olines):
+        m = re.match(r"(\s*)struct Tm(\d+) \{$", line)
+        if m and n > 0 and olines[n - 1].strip().startswith("template<"):
+            ind = m.group(1)
+            blk = [olines[n - 1].strip(), line.strip()]
+            for l2 in olines[n + 1:]:
+                blk.append(l2.strip())
+                if l2 == ind + "};":
+                    break
+            blocks[int(m.group(2))] = blk
+
+    def type_closure(ti, acc):
+        t = dump["types"].get(str(ti))
+        if t is None or ti in acc:
+            return
+        acc[ti] = t["true_name"]
+        if t["wrapped_type"]:
+            type_closure(t["wrapped_type"], acc)
+
+    for c in active:
+        n = c.name
+        al = c.alias()
+        # P: the template re-printed by parse_file, instantiated with the same arguments
+        blk = blocks.get(c.i)
+        if blk is None:
+            p = Probe(c, "P", None, None, None)
+            p.verdict = "template missing from parse_file's output"
+            probes.append(p)
+        else:
+            uses = [l for l in blk[2:] if re.search(r"\b%s\b" % n, l)]
+            if len(uses) > 1:
+                p = Probe(c, "P2", None, None, None)
+                p.verdict = "spurious additional declaration of the name"
+                probes.append(p)
+                # keep the declaration of the right kind only
+                keep = [l for l in uses if l.startswith("typedef ") == (c.role == "typedef")][:1]
+                blk = [l for l in blk if l not in uses or l in keep]
+            text = " ".join(blk)
+            setup = rename(text, c.tmpl(), "chk_" + c.tmpl())
+            ref = "chk_%s<%s>::%s" % (c.tmpl(), c.inst[0], n)
+            pt = ref if c.role == "typedef" else "decltype(%s)" % ref
+            shown = " ".join(l for l in blk[2:-1] if l != "public:")
+            probes.append(Probe(c, "P", shown, setup, pt))
+        # Dp: prototype of the instantiated member function
+        if c.role in ("param", "ret"):
+            fl = funcs.get(n, [])
+            if not fl:
+                p = Probe(c, "Dp", None, None, None)
+                p.verdict = "function missing from the database"
+                probes.append(p)
+            for fi, f in fl:
+                scoped = f["scoped_name"]
+                proto = f["prototype"].strip().rstrip(";")
+                proto = re.sub(r"^(static|inline|extern)\s+", "", proto)
+                if proto.count(scoped + "(") == 1:
+                    probes.append(Probe(c, "Dp", f["prototype"].strip(), None,
+                                        proto.replace(scoped + "(", "(*)(", 1),
+                                        expected="decltype(&%s)" % c.path()))
+                else:
+                    p = Probe(c, "Dp", f["prototype"].strip(), None, None)
+                    p.verdict = "prototype does not name the function"
+                    probes.append(p)
+                # Tv: every database type the wrappers of the function refer to must at least
+                # be a type to the compiler
+                acc = {}
+                for w in wrappers.get(fi, []):
+                    type_closure(w["return_type"], acc)
+                    for q in w["parameters"]:
+                        type_closure(q["type"], acc)
+                for ti, tn in sorted(acc.items()):
+                    probes.append(Probe(c, "Tv", tn, None, tn, expected=tn))
+        if c.role == "data":
+            el = elems.get(n)
+            if el is not None:
+                t = dump["types"].get(str(el["type"]))
+                if t is not None:
+                    probes.append(Probe(c, "Dt", t["true_name"], None, t["true_name"], norm=True))
+                    if t["scoped_name"] != t["true_name"]:
+                        probes.append(Probe(c, "Ds", t["scoped_name"], None, t["scoped_name"], norm=True))
+                # Dg: the synthesized getter / setter prototypes must be well-formed
+                for gk in ("getter", "setter"):
+                    f = dump["functions"].get(str(el.get(gk, 0)))
+                    if f is not None:
+                        scoped = f["scoped_name"]
+                        proto = f["prototype"].strip().rstrip(";")
+                        if proto.count(scoped + "(") == 1:
+                            ptr = proto.replace(scoped + "(", "(%s::*)(" % al, 1)
+                            probes.append(Probe(c, "Dg", f["prototype"].strip(), None, ptr, expected=ptr))
+        if c.role == "typedef":
+            t = tdefs.get(n)
+            if t is not None:
+                w = dump["types"].get(str(t["wrapped_type"]))
+                if w is not None:
+                    probes.append(Probe(c, "Dtd", w["true_name"], None, w["true_name"]))
+    if probes:
+        run_checker(d, probes)
+    return cases, probes, filtered
+
+
+def tm_anon(c, text):
+    return re.sub(r"(?<![A-Za-z0-9])(chk_|get_|set_)?(Tm|I|[mprt])\d+\b",
+                  lambda m: re.sub(r"\d+", "", m.group(0)), text or "")
+
+
+def tmembers(ck, b):
+    cases = T.enumerate_cases(ck.tier)
+    tus = [cases[i:i + TM_PER_TU] for i in range(0, len(cases), TM_PER_TU)]
+    cnt = itertools.count()
+
+    def one(tu):
+        d = ck.scratch("tm%d" % next(cnt))
+        res = tmember_tu(b, d, tu)
+        if not ck.keep:
+            for suf in ("", "a", "b", "aa", "ab", "ba", "bb"):
+                shutil.rmtree(d + suf, ignore_errors=True)
+        return res
+
+    def observe(c, ps):
+        items = []
+        if c.reject is not None:
+            items.append((None, "rejected: " + c.reject))
+        for p in ps:
+            if p.verdict == "same":
+                continue
+            if p.verdict.startswith("alt:"):
+                for nm in p.verdict[4:].split("+"):
+                    items.append(("deviation:" + nm, nm))
+            else:
+                items.append((None, "%s %s" % (p.chan, tm_anon(c, p.verdict))))
+        return items
+
+    def obs_text(c, ps):
+        parts = ["rejected: " + c.reject] if c.reject is not None else []
+        parts += ["%s `%s` %s" % (p.chan, tm_anon(c, p.text), tm_anon(c, p.verdict))
+                  for p in ps if p.verdict != "same"]
+        return " ;; ".join(parts)
+
+    def confirm(c, expect):
+        def f():
+            c2 = T.TCase(c.pl, c.inst, c.role, c.elem, c.shape)
+            d = ck.scratch("tmc%d" % next(cnt))
+            cs, probes, filt = tmember_tu(b, d, [c2])
+            shutil.rmtree(d, ignore_errors=True)
+            return c2 not in filt and obs_text(c2, probes) == expect
+        return f
+
+    filtered, explained = {}, {}
+    reported = failing = 0
+    chan = {}
+    for tu_cases, probes, filt in pmap(one, tus):
+        byc = {}
+        for p in probes:
+            byc.setdefault(p.case, []).append(p)
+            chan[p.chan] = chan.get(p.chan, 0) + 1
+        for c in tu_cases:
+            if c in filt:
+                w = re.sub(r"'[^']*'", "'..'", filt[c])[:60]
+                filtered[w] = filtered.get(w, 0) + 1
+                continue
+            ps = byc.get(c, [])
+            items = observe(c, ps)
+            ck.note(c.key, nontrivial=len(ps) >= 2 or c.reject is not None,
+                    outcome="tmember " + ("rejected" if c.reject else "accepted")
+                            + (" DEVIATES" if items else ""),
+                    family="tmember/" + c.role,
+                    sample={"header": c.render(),
+                            "printed": [(p.chan, tm_anon(c, p.text), p.verdict) for p in ps]})
+            if not items:
+                continue
+            obs = obs_text(c, ps)
+            det = {"case": c.key, "header": c.render(), "observed": obs}
+            resolved = []
+            for k0, ob in items:
+                cands = [k0] if k0 is not None else c.symbol_keys()
+                hit = None
+                for k1 in cands:
+                    if ck._match_known(k1, {"observed": ob}) is not None:
+                        hit = k1
+                        break
+                resolved.append((hit, ob))
+            if all(h is not None for h, _ in resolved):
+                for h, ob in set(resolved):
+                    explained[h + " | " + ob] = explained.get(h + " | " + ob, 0) + 1
+                    ck.fail(h, ob, {"observed": ob, "first_case": det})
+                continue
+            failing += 1
+            if DUMP:
+                DUMP.write("%s\t%s\n" % (c.key, obs))
+            if ck._match_known(c.key, det) is not None:
+                ck.fail(c.key, obs, det)
+            elif reported < 25:
+                reported += 1
+                ck.fail(c.key, obs, det, confirm=confirm(c, obs))
+    if failing > reported:
+        print("NOTE: %d failing template-member cases in total" % failing, flush=True)
+        ck.cap("%d failing template-member cases, the first %d were confirmed and reported"
+               % (failing, reported))
+    ck.extra["tmember"] = {"cases": len(cases), "filtered_rejected_by_gxx": filtered,
+                           "failing": failing, "probes_per_channel": chan,
+                           "explained_by_symbol_findings": explained}
+
+
 # ------------------------------------------------------------------------- findings
 BUILTIN = {"int", "ulong", "char", "bool", "double"}
 
@@ -1097,6 +1394,8 @@ def main():
         classheads(ck, b)
     if not ck.only or "lookup" in ck.only:
         lookups(ck, b)
+    if not ck.only or "tmember" in ck.only:
+        tmembers(ck, b)
     cases = enumerate_cases(ck.tier) if (not ck.only or "grammar" in ck.only) else []
     tus = [cases[i:i + PER_TU] for i in range(0, len(cases), PER_TU)]
     counter = itertools.count()
@@ -1230,6 +1529,19 @@ def replay(ck, b):
         print("parse_file rc=%s\n%s" % (r.rc, r.err[-1500:]))
         ck.cleanup()
         return 1 if (r.rc != 0 or "error:" in r.err) else 0
+    if k.startswith("tmember/"):
+        c = T.case_from_key(k)
+        cs, probes, filt = tmember_tu(b, ck.scratch("replay"), [c])
+        print("\n".join(c.render()))
+        if c in filt:
+            print("g++ rejects the case:", filt[c])
+        if c.reject:
+            print("rejected:", c.reject)
+        for p in probes:
+            print("  %-3s %-60s %s" % (p.chan, p.text, p.verdict))
+        bad = c.reject is not None or any(p.verdict != "same" for p in probes)
+        ck.cleanup()
+        return 1 if bad else 0
     if k.startswith("lookup/"):
         c = K.case_from_key(k)
         cs, probes, filt = lookup_tu(b, ck.scratch("replay"), [c])
